@@ -36,6 +36,8 @@ OBLIGATIONS = [
     "Grog.C20.addEdges_spec",
     "Grog.C20.old_paths_duplicate_witness",
     "Grog.C20.old_print_duplicate_witness",
+    "Grog.C20.inverse_printed",
+    "Grog.C20.printedDistinct_of_labels",
 ]
 ASSUMPTIONS = [
     "labels of distinct nodes are distinct (BuildNodeMap is keyed by label) — hypothesis LabelsDistinct of the exactness theorems",
